@@ -18,7 +18,7 @@ RULE = ("every value-taking node with unit classes of every bundled schema x eve
 ASSUMPTIONS = ["unit oracle hedmon/oracle/units.py (plural table hand-written; irregular/unclear plurals are not tested)",
                "conversion-factor literals are read with '^' == 'e', as the schema data itself does",
                "spellings with two derivations of different factor (e.g. 'uV' in 8.3.0) are excluded from the factor check"]
-MIN_MONITOR_EVALS = {"accepted-validates": 2000, "rejected-flagged": 300, "bare-number": 50, "conversion": 1500,
+MIN_MONITOR_EVALS = {"accepted-validates": 2000, "rejected-flagged": 300, "unit-first-rejected": 100, "bare-number": 50, "conversion": 1500,
                      "linearity": 500, "unknown-unit-none": 300}
 NUMERALS_Q = ["3", "0.5", "2.5E-2", "-7", "+4", "12.", ".5", "1e3", "0", "0.0", "-0"]
 UNIT_CODES = {"UNITS_INVALID", "VALUE_INVALID"}
@@ -182,6 +182,7 @@ def rejected_candidates(rng, table):
                 cands.add("kilo" + uname.lower())  # prefix on a non-SI name
         cands.add(uname + "q")
     cands |= {"foo", "xyzunits", "unit", "Zz"}
+    cands |= set(table.wrong_case())               # every symbol spelling, prefixed ones too, in another letter case
     return sorted(c for c in cands if c and " " not in c and not table.accepted(c))
 
 
@@ -213,6 +214,14 @@ def run_shard(shard, rec):
             check_case(case, rec)
             if rng.random() < 0.002:
                 rec.sample(case)
+        # an ordinary unit written before the number: only prefix-type units may stand there
+        sfx = table.suffix_spellings()
+        for sp in (sfx if full else rng.sample(sfx, min(6, len(sfx)))):
+            case = dict(schema=v, ns=shard.get("ns", ""), node=path, kind="rejected", num=rng.choice(numerals), unit=sp,
+                        prefix=True)
+            rec.case((shard.get("ns", "") + v, path, case["num"], sp, "unit-first"))
+            rec.mon("unit-first-rejected")
+            check_case(case, rec)
         for num in numerals:
             case = dict(schema=v, ns=shard.get("ns", ""), node=path, kind="bare", num=num)
             rec.case((shard.get("ns", "") + v, path, num), nontrivial=False)
